@@ -107,7 +107,7 @@ Proof. exact error_spans_inside. Qed.
 (* Finding F25: `expect_tokens_recover` has the precondition "the next token is not expected"
    (a debug_assert).  A production that calls it otherwise (concurrent_statement.rs did before commit
    22440b9, for a label that is not followed by a statement: `architecture a of e is begin l: end;`;
-   sequential_statement.rs has the same pattern: `process begin l: end process;`) makes the parser
+   sequential_statement.rs did before b0ec70e: `process begin l: end process;`) makes the parser
    panic in builds with debug assertions and report an inverted span (start > end) in builds
    without.  The inputs are in corpus/C17.cases. *)
 Theorem C17_recover_contract_violation :
